@@ -14,7 +14,8 @@ SPEC = {
             "coordinates up to +-2^31, all 8 formats, op sequences of length <= 30 with the shadow carried along, including ACROSS "
             "set_channel_width / set_has_alpha / copy of destination and sources (model channel maximum = 2^width-1 afterwards; exact "
             "per-pixel prediction of widen/narrow/alpha add/drop/mirror/invert) and read_pixel probes; format stage: every format x "
-            "every target width on canvases {0,1,2,3,5}^2 followed by invert / alpha toggle / blend_blit / blit-from / mirror. "
+            "every target width on canvases {0,1,2,3,5}^2 (same width = canvas carrying its own MAXVAL != 2^w-1, created by loading a "
+            "generated P6/P7 via fmemopen or by the raw-data constructor; also 1/4 of the sequences) followed by invert / alpha toggle / blend_blit / blit-from / mirror. "
             "distinct_nontrivial = distinct (operation, clip shape [dst-negative, src-negative, dst-overflow, src-overflow]) and "
             "(operation, channel width, alpha mode, self/other source) classes plus line/text/identity/pixel-access shape classes.",
     "level_text": "Every explored execution of the real drawing code is compared pixel-for-pixel against a shadow model that never "
@@ -35,6 +36,8 @@ SPEC = {
         "reverse_horizontal:fmt:*", "reverse_vertical:fmt:*", "invert:fmt:*", "resize_blit:fmt:*",
         "set_channel_width:8->16", "set_channel_width:64->8", "set_channel_width:16->64", "set_has_alpha:add:w64", "set_has_alpha:drop:w8",
         "set_has_alpha:add:w16", "copy:w16", "copy:w64", "read_probe:16n", "read_probe:64n", "invert:fmt:16", "blend_blit:fmt:32",
+        "invert:own-maxval:8", "invert:own-maxval:16", "invert:own-maxval:64", "blend_blit:own-maxval:8", "blit:own-maxval:16",
+        "set_has_alpha:add:w8:own-maxval", "set_has_alpha:add:w32:own-maxval", "copy:w16:own-maxval",
         "identity:widen:8->64", "identity:64a:*", "identity:8n:empty", "pixel:oob:read_pixel:*", "pixel:oob:write_pixel32:*",
         "pixel:in:write_pixel:64a", "mask_blit_img:mask-too-small",
     ],
